@@ -30,5 +30,8 @@ PROPS = {
     "C08": _p("proof", "Theorems on the dictionary specification (sorted, duplicate free, counts = posting counts, Contains = membership) and the scratch-list model; correspondence with ranges and prefix automata over built, loaded and merged segments."),
     "C13": _p("proof", "The reuse quantifiers (any old object) are inside the iterator, dictionary and doc-value theorems; the correspondence check replays lookup histories reusing objects across terms, encodings and flags against the model, which has no notion of reuse."),
     "C16": _p("proof", "Theorems on built and merged statistics (additivity, equality of both flavours under the length precondition, zero for unknown fields); correspondence on every field of built, merged and reloaded segments."),
+    "C11": _p("proof", "Theorems (properties/C11.v) on the byte-exact footer model: CRC-32 update is compositional, the last four bytes written by Segment.WriteTo and by the merger are the CRC-32 of all preceding bytes, parseFooter recovers the footer fields, re-persisting reproduces the file. The correspondence check hands the real bytes of every written file to the Coq model, which parses the footer and recomputes the CRC; loaded segments are persisted again and compared byte for byte."),
+    "C17": _p("proof", "Theorems (properties/C17.v) on merge_spec: associativity for every order-preserving grouping (full equality of fields, documents and statistics), deletions translated through the reported tables, single-segment identity and fixed point. The correspondence check merges real segments flat and in several bracketings (deletions inside or translated through DocumentNumbers()), requires all dumps identical to each other and to the model."),
     "C18": _p("proof", "Theorem docsmatching_union: o_docsmatching is exactly the sorted union of the listed terms' postings, unknown entries contribute nothing; correspondence with mixed/unknown/repeated lists."),
 }
+NOT_APPLICABLE = []
